@@ -14,7 +14,12 @@ Deep(d) == LET A == SetToSeq(RandomSubset(NRand, [1..4 -> 1..Len(V.segs)]))     
           \cup {RenderState(h, sg, it, fr, FALSE) : h \in {1}, sg \in SeqsUpTo(1..Len(V.segs), 1), it \in ItemSeqs, fr \in 1..Len(V.frags)}
 \* every path of MaxSegs + 1 segments on the first host, bare (truncated routes such as '/document/d/e', '/x/photos/a.1')
 OneDeeper(d) == {RenderState(1, sg, <<>>, 1, sl) : sg \in {t \in SeqsUpTo(1..Len(V.segs), MaxSegs + 1) : Len(t) = MaxSegs + 1}, sl \in BOOLEAN}
+\* the platform's route templates with every vocabulary token in each wildcard position (0), on the first two hosts
+RECURSIVE Inst(_)
+Inst(t) == IF t = <<>> THEN {<<>>}
+           ELSE {<<x>> \o r : x \in (IF t[1] = 0 THEN 1..Len(V.segs) ELSE {t[1]}), r \in Inst(Tail(t))}
+Routes(d) == UNION {{RenderState(h, sg, <<>>, 1, sl) : sg \in Inst(V.routes[i]), h \in 1..2, sl \in {FALSE}} : i \in 1..Len(V.routes)}
 GenInit == host = 1 /\ segs = <<>> /\ items = <<>> /\ frag = 1 /\ slash = FALSE
-           /\ JsonSerialize(IOEnv.GEN_OUT, [urls |-> SetToSeq(AllStates(0) \cup Deep(0) \cup OneDeeper(0)), foreign |-> D19.foreign])
+           /\ JsonSerialize(IOEnv.GEN_OUT, [urls |-> SetToSeq(AllStates(0) \cup Deep(0) \cup OneDeeper(0) \cup Routes(0)), foreign |-> D19.foreign])
 GenNext == FALSE /\ UNCHANGED vars
 =============================================================================
